@@ -446,3 +446,68 @@ reg(Prop("C12", "Attack tables equal ray-walking geometry for every square and o
                       "pawn sets are 64-bit bitboards (b < 2^64); slider occupancies are arbitrary"],
          classify=c12_refine,
          design_ref="5/C12"))
+
+# ------------------------------------------------------------------------------------------------
+# Layer A of C06 / C07 / C08: the control skeleton of search.go (translator harness/cmd/gen/skel.go
+# -> Gen/SearchSkel.v, verified checkers Model/SkelCheck.v, soundness Proofs/Skel*.v). No stream:
+# the tie to /repo is the translator, re-run on every check.
+
+def also_check(*rels):
+    """Prop.extra hook: re-check further Properties files (e.g. the Layer A file next to a Layer B
+    file of the same property), adding their theorems to the obligations of the run."""
+    def extra(prop, res, workdir):
+        for rel in rels:
+            names = V.theorem_names(rel)
+            res.obligations += len(names)
+            res.theorems = list(getattr(res, "theorems", [])) + names
+            ok, out = V.coq_make([rel[:-2] + ".vo"])
+            if ok:
+                ok, out = V.coqc_file(rel)
+            if not ok:
+                loc = V.locate_failure(out) or {"file": rel, "statement": None, "error": out[-800:]}
+                res.broken.append({"kind": "obligation", "name": f"{loc.get('file')}:{loc.get('statement')}", "detail": loc})
+                V.log(f"proof obligation broken: {loc.get('file')} {loc.get('statement')}")
+                continue
+            blocks = V.parse_assumptions(out)
+            axioms = sorted(set(a for b in blocks for a in b))
+            res.assumptions = sorted(set(res.assumptions) | set(axioms))
+            unexpected = [a for a in axioms if a not in prop.allowed_axioms]
+            if unexpected:
+                res.broken.append({"kind": "obligation", "name": "Print Assumptions allow-list (" + rel + ")",
+                                   "detail": {"unexpected_axioms": unexpected}})
+                continue
+            res.discharged += len(names)
+    return extra
+
+
+SKEL_TRUSTED = [
+    "translator harness/cmd/gen/skel.go (go/ast walk of search/search.go + search/state.go): its table of recognised "
+    "calls (effect atoms vs reads: Board.InCheck/Threefold/Hash/CaptureSq/IsCheckmate/IsStalemate, eval.Eval, "
+    "Table.LookUp/HashFull, MoveRanker.RankNoisy/RankQuiet, Store.Frame, Stack.Top, pv.active, picker.Move/YieldedMoves "
+    "are reads; packages fmt/strings/time/os/params/heur/move/transp do not reach tracked state); methods called on and "
+    "writes through local values (move-store slices, *move.Weighted, table entries read-only) do not change tracked "
+    "state; functional options only configure the request; every other call or assignment touching b, s.tt, s.ranker, "
+    "s.ms, s.hstack, s.pv, s.aborted, s.gen, opts.Counters.Nodes, opts.PonderHit fails closed",
+    "pointer aliasing is not tracked: a move expression (m, m.Move, pseudo.Move) is taken to denote the same move at "
+    "MakeMove and UndoMove when none of its identifiers is assigned in between; recognised conditions (IfC) are "
+    "comparisons of integer/boolean local variables whose address is not taken",
+    "hand-written models of Search.abort (sticky flag, poll of opts.Stop) and Search.incrementNodes, pinned to the "
+    "source text of the two functions (C08_abort_source / C08_incrementNodes_source)",
+    "semantics of Go control flow as modelled in Model/Skel.v (if/for/range/switch/select/break/continue/forward goto/"
+    "return/defer; panics such as stack overflow of s.hstack or the move store are outside: hypothesis store_ok of DESIGN 5/C06)",
+]
+
+reg(Prop("C06skel", "Layer A of C06: board, move store and history stack untouched by a search, for every abort point",
+         "Properties/C06_skel.v", [], trusted=SKEL_TRUSTED,
+         assumptions=["C03 (undo after make is the identity) as the explicit hypotheses undo_make_id / undo_null_id of the theorems",
+                      "partial by design: Layer B (decision logic, returned move) is a separate development"],
+         design_ref="5/C06 Layer A"))
+reg(Prop("C07skel", "Layer A of C07: every pv.insert reads the line of the child just searched under that move",
+         "Properties/C07_skel.v", [], trusted=SKEL_TRUSTED,
+         assumptions=["partial by design: legality of the lines is Layer B + C01"],
+         design_ref="5/C07"))
+reg(Prop("C08skel", "Layer A of C08: node budget never exceeded; abort checked before persistent stores",
+         "Properties/C08_skel.v", [], trusted=SKEL_TRUSTED,
+         assumptions=["stores that may run with the abort flag set: only alphaBeta's final insert (null-move path), see Properties/C08_skel.v",
+                      "node counter arithmetic is not wrapped at 2^63"],
+         design_ref="5/C08"))
